@@ -45,6 +45,16 @@ const (
 // c25Token is the reference token T(L) of the specification: L characters,
 // letters of both cases, digits and punctuation, no two neighbours alike.
 func c25Token(n int) string {
+	switch n { // the specification's Blanks: configured tokens made of white space only
+	case -1:
+		return " "
+	case -2:
+		return "\n"
+	case -3:
+		return "\r\n"
+	case -4:
+		return " \t "
+	}
 	const alphabet = "c25TokSecretXyZ-aBdEfGhIjKlMnOpQrStUvW_0123456789"
 	b := make([]byte, n)
 	for i := range b {
@@ -77,7 +87,7 @@ func c25SwapCase(s string) string {
 
 type c25EnvKey struct {
 	router string
-	cfgLen int // 0: no QueryAuthToken configured
+	cfgLen int // 0: no QueryAuthToken configured; < 0: one of the white-space-only tokens
 }
 
 type c25Env struct {
@@ -89,7 +99,7 @@ type c25Env struct {
 func c25NewEnv(dir string, k c25EnvKey) (*c25Env, error) {
 	var b strings.Builder
 	b.WriteString("General:\n  ConfigurationVersion: 2\nNetwork:\n  ListenAddr: 127.0.0.1:0\n  PeerListenAddr: 127.0.0.1:0\n")
-	if k.cfgLen > 0 {
+	if k.cfgLen != 0 {
 		fmt.Fprintf(&b, "Debugging:\n  QueryAuthToken: %q\n", c25Token(k.cfgLen))
 	}
 	rules := fmt.Sprintf("RulesVersion: 2\nSamplers:\n  __default__:\n    DynamicSampler:\n      SampleRate: 7\n      FieldList:\n        - %s\n  %s:\n    DynamicSampler:\n      SampleRate: 3\n      FieldList:\n        - %s\n",
@@ -107,7 +117,7 @@ func c25NewEnv(dir string, k c25EnvKey) (*c25Env, error) {
 		return nil, fmt.Errorf("config loader refused the c25 configuration: %v", err)
 	}
 	want := ""
-	if k.cfgLen > 0 {
+	if k.cfgLen != 0 {
 		want = c25Token(k.cfgLen)
 	}
 	if got := cfg.GetQueryAuthToken(); got != want {
@@ -171,6 +181,9 @@ func c25RequestToken(kind string, cut, n int) (string, string, error) {
 	case "empty":
 		return "", types.QueryTokenHeader, nil
 	case "wrongheader":
+		if n < 0 { // a white-space token cannot travel in a header; any value in the wrong header must be refused all the same
+			return "c25-in-the-wrong-header", types.APIKeyHeader, nil
+		}
 		return tok, types.APIKeyHeader, nil
 	case "other":
 		return "c25-something-else", types.QueryTokenHeader, nil
@@ -213,7 +226,7 @@ func (e *c25Env) eval(route, format string, cfgLen int, kind string, cut, n int)
 	if header != "" {
 		req.Header[header] = []string{sent}
 	}
-	if kind != "exact" && kind != "wrongheader" && cfgLen > 0 && sent == c25Token(cfgLen) {
+	if kind != "exact" && kind != "wrongheader" && cfgLen != 0 && sent == c25Token(cfgLen) {
 		return c25Outcome{}, fmt.Errorf("stale harness: variant %s/%d of a %d-character token equals the token", kind, cut, n)
 	}
 	resp, err := e.srv.Client().Do(req)
@@ -264,7 +277,7 @@ func (h *c25Harness) Reset(init map[string]any) error {
 	}
 	h.cur = e
 	h.cfgLen = k.cfgLen
-	h.vec = map[string]any{"router": k.router, "cfgSet": k.cfgLen > 0, "len": n, "kind": verifkit.Str(init, "kind"), "cut": verifkit.Int(init, "cut")}
+	h.vec = map[string]any{"router": k.router, "cfgSet": k.cfgLen != 0, "len": n, "kind": verifkit.Str(init, "kind"), "cut": verifkit.Int(init, "cut")}
 	h.outs = []c25Outcome{}
 	return nil
 }
